@@ -45,7 +45,7 @@ theorem stake_guards (s s' : CState) (env : Env) (info : Info) (a : Nat) (mt : O
       ∧ s'.st.totalNative = st.totalNative + a ∧ s'.st.totalLst = st.totalLst + m := by
   unfold liquidStake at h
   simp only [bind_ok, ensure_ok] at h
-  obtain ⟨_, _, _, _, _, _, _, h4, st, h5, m, h6, _, h7, _, h8, r1, h9, orc, h10, n', h11, l', h12, h13⟩ := h
+  obtain ⟨_, _, _, _, _, _, _, h4, st, h5, m, h6, _, h7, _, h8, r1, h9, n', h11, l', h12, orc, h10, h13⟩ := h
   refine ⟨st, m, h5, h6, by simpa using h4, by simpa using h7, ?_, ?_, ?_, ?_⟩
   · intro e he; subst he; simp [checkExpected, ensure_ok] at h8; exact h8
   · split at h13
